@@ -5,6 +5,8 @@
      {a:"Begin", t, op, k, c, f}                  the call is about to be issued
      {a:"End",   t, op, k, c, err, gd, gr [,S]}   the call returned c ("nil" = no revision); S = real snapshot (seq mode)
      {a:"Quiesce", S}                             no call in progress; S = real snapshot
+     {a:"StoreUpdate", d, c}                      the scripted bucket now holds content c for document d (same revision, other channels)
+   op "Inval" is the feed-side Remove (DocChanged) for a key of an updated document.
    S = {vals:[{key,c,e,ms,b,cb}..], lru:[ids front..back], map:[[key,id]..], numItems, total}: the REAL rc.cache / rc.lruList /
    values (body etc. as content name, err set, memState, itemBytes, recount of the stored content) and the REAL gauges.
    Pass P binds the implementation variables to S and evaluates the property; pass C (seq mode) runs the model's own
@@ -25,7 +27,7 @@ CszFun(x) == [c \in {x[i][1] : i \in 1..Len(x)} |-> x[(CHOOSE i \in 1..Len(x) : 
 SnapVal(S) == [i \in 1..Pool |->
                  IF i <= Len(S.vals)
                  THEN [key |-> S.vals[i].key, c |-> S.vals[i].c, e |-> S.vals[i].e, ms |-> S.vals[i].ms,
-                       b |-> S.vals[i].b, cb |-> S.vals[i].cb, ld |-> 0]
+                       b |-> S.vals[i].b, cb |-> S.vals[i].cb, ld |-> 0, ldg |-> FALSE]
                  ELSE FreeVal]
 SnapMap(S) == [k \in Keys |-> IF \E i \in 1..Len(S.map) : S.map[i][1] = k
                               THEN S.map[(CHOOSE i \in 1..Len(S.map) : S.map[i][1] = k)][2] ELSE 0]
@@ -39,6 +41,8 @@ TInit ==      \* placeholder configuration; every trace starts with a Reset line
   /\ pc = [t \in Threads |-> "idle"] /\ th = [t \in Threads |-> IdleTh] /\ out = [t \in Threads |-> NoOut]
   /\ cap = 1 /\ maxBytes = 0 /\ store = [d \in {"A", "B", "C", "D"} |-> Missing] /\ csize = <<>>
   /\ tainted = {} /\ stale = {} /\ dev = {} /\ nops = [t \in Threads |-> 0] /\ hist = <<>>
+  /\ allowed = [k \in Keys |-> {}] /\ ever = [k \in Keys |-> {}] /\ okset = [t \in Threads |-> {}]
+  /\ fl = [t \in Threads |-> NoFl] /\ pend = {} /\ nupd = 0
   /\ l = 1 /\ mode = "seq"
 
 Reset ==
@@ -48,6 +52,8 @@ Reset ==
   /\ pc' = [t \in Threads |-> "idle"] /\ th' = [t \in Threads |-> IdleTh] /\ out' = [t \in Threads |-> NoOut]
   /\ cap' = Trace[l].cap /\ maxBytes' = Trace[l].maxBytes /\ store' = Trace[l].store /\ csize' = CszFun(Trace[l].csz)
   /\ tainted' = {} /\ stale' = {} /\ dev' = {} /\ nops' = [t \in Threads |-> 0] /\ hist' = <<>>
+  /\ allowed' = [k \in Keys |-> {Trace[l].store[DocOf(k)]} \ {Missing}] /\ ever' = [k \in Keys |-> {Trace[l].store[DocOf(k)]} \ {Missing}]
+  /\ okset' = [t \in Threads |-> {}] /\ fl' = [t \in Threads |-> NoFl] /\ pend' = {} /\ nupd' = 0
   /\ mode' = Trace[l].mode
 
 (* ------------------------------- pass P ------------------------------- *)
@@ -59,10 +65,10 @@ BeginDev(r) ==
 PBegin ==
   /\ Ev("Begin")
   /\ LET r == Trace[l] IN
-       /\ GhostBegin(r.op, r.k, r.c)
+       /\ GhostBegin(r.t, r.op, r.k, r.c)
        /\ dev' = dev \cup BeginDev(r)
        /\ pc' = [pc EXCEPT ![r.t] = "busy"]
-  /\ UNCHANGED <<cmap, lru, val, numItems, total, evLock, th, out, conf, stale, nops, hist, mode>>
+  /\ UNCHANGED <<cmap, lru, val, numItems, total, evLock, th, out, conf, stale, allowed, ever, pend, nupd, nops, hist, mode>>
 PEnd ==
   /\ Ev("End")
   /\ LET r == Trace[l] IN
@@ -70,13 +76,17 @@ PEnd ==
        /\ GhostEnd(r.t)
        /\ pc' = [pc EXCEPT ![r.t] = "idle"]
        /\ IF Has(r, "S") THEN Bind(r.S) ELSE UNCHANGED <<cmap, lru, val, numItems, total>>
-  /\ UNCHANGED <<evLock, th, conf, tainted, dev, nops, hist, mode>>
+  /\ UNCHANGED <<evLock, th, conf, tainted, ever, nupd, dev, nops, hist, mode>>
+PStoreUpdate ==
+  /\ Ev("StoreUpdate")
+  /\ StoreUpdateTo(Trace[l].d, Trace[l].c)
+  /\ UNCHANGED <<hist, mode>>
 PQuiesce ==
   /\ Ev("Quiesce")
   /\ Bind(Trace[l].S)
   /\ pc' = [t \in Threads |-> "idle"]
   /\ UNCHANGED <<evLock, th, out, conf, ghost, hist, mode>>
-PNext == Reset \/ PBegin \/ PEnd \/ PQuiesce
+PNext == Reset \/ PBegin \/ PEnd \/ PQuiesce \/ PStoreUpdate
 PSpec == TInit /\ [][PNext]_tvars
 
 (* ------------------------------- pass C ------------------------------- *)
@@ -101,7 +111,7 @@ CAct ==
        /\ Act(r.t)
        /\ IF pc'[r.t] = "idle" THEN l' = l + 1 /\ Conforms(r) ELSE l' = l
   /\ UNCHANGED mode
-CNext == Reset \/ CBegin \/ CAct
+CNext == Reset \/ CBegin \/ CAct \/ PStoreUpdate
 CSpec == TInit /\ [][CNext]_tvars
 
 Progress == Mark(l)
